@@ -920,6 +920,39 @@ def _assign(shape, it):
     return [_assign(s, it) for s in shape]
 
 
+_LIT_RE = None
+
+
+def _tree_consts(tree, acc):
+    """the numeric literals the traced code compares against"""
+    import re
+    global _LIT_RE
+    if _LIT_RE is None:
+        _LIT_RE = re.compile(r"\(\((-?\d+) : Rat\) / (\d+)\)|\((-?\d+) : Rat\)")
+    if tree[0] == "ite":
+        for m in _LIT_RE.finditer(tree[1][0]):
+            acc.add(Fraction(int(m.group(1)), int(m.group(2))) if m.group(1) else Fraction(int(m.group(3))))
+        _tree_consts(tree[2], acc)
+        _tree_consts(tree[3], acc)
+    return acc
+
+
+def _float_between(a, b):
+    q = Fraction(float((a + b) / 2))
+    return q if a < q < b else None
+
+
+def _boundary_pool(consts, pool):
+    """pool values, every constant of the code, and a binary64 value strictly between neighbours"""
+    pts = sorted(set(pool) | set(consts))
+    out = set(pts)
+    for a, b in zip(pts, pts[1:]):
+        q = _float_between(a, b)
+        if q is not None:
+            out.add(q)
+    return sorted(v for v in out if Fraction(float(v)) == v)
+
+
 def search(ctx, failures):
     """A tie broke (an obligation no longer elaborates, a stage crashed): look for a concrete input on
     which the property fails.  (1) where an extracted decision tree exists, evaluate it against the
@@ -934,7 +967,8 @@ def search(ctx, failures):
         if t is None:
             continue
         cls, shape, names, tree = t
-        envs = list(st.grid_envs(names, pool, limit=6000, rng=ctx.rng)) if names else [{}]
+        vals = _boundary_pool(_tree_consts(tree, set()), pool)
+        envs = list(st.grid_envs(names, vals, limit=8000, rng=ctx.rng)) if names else [{}]
         cands = []
         for env in envs:
             r = st.tree_eval(tree, env)
